@@ -16,7 +16,10 @@ import models
 from interp import Program, Ctx, Interp, Unsupported, PathEnd, Panic, Infeasible
 
 
-def load_program(mir_path, srcroot, repo='/repo', cache_dir=None):
+def load_program(mir_path, srcroot, repo=None, cache_dir=None):
+    if repo is None:
+        import mirror
+        repo = mirror.REPO
     text = open(mir_path).read()
     h = hashlib.sha256(text.encode()).hexdigest()[:16]
     mir = None
@@ -34,7 +37,7 @@ def load_program(mir_path, srcroot, repo='/repo', cache_dir=None):
             tmp = cp + '.%d.tmp' % os.getpid()
             pickle.dump(mir, open(tmp, 'wb'))
             os.replace(tmp, cp)
-    defs = rustdefs.load_defs(repo)
+    defs = rustdefs.load_defs(repo, src=srcroot)
     # log crate enums used by the `debug!` expansion
     defs['Level'] = rustdefs.EnumDef('Level', [(n, [], 'unit') for n in ('Error', 'Warn', 'Info', 'Debug', 'Trace')], [])
     defs['LevelFilter'] = rustdefs.EnumDef('LevelFilter', [(n, [], 'unit') for n in ('Off', 'Error', 'Warn', 'Info', 'Debug', 'Trace')], [])
